@@ -31,6 +31,8 @@ def run_struct_job(harness, cfg, prop, seed=0, max_paths=200000, confirm=None, d
     replay=record, sig_extra=str); violated obligations are confirmed by `confirm(record, label)` which re-runs the
     concrete scenario on the real code from a clean state and returns (reproduced, why)."""
     t0 = time.time()
+    symx.PINS.clear()
+    symx.PINS.update(cfg.get('pin') or {})      # this job explores the slice of the space with these choices fixed
     cex, unrepro, samples, mismatches = [], [], [], []
     seen = collections.Counter()
     validated = [0]
